@@ -17,14 +17,14 @@ import numpy as np
 from .. import models
 from ..core import RunResult, adigest, mix
 from ..driver import pristine_library_state
-from .hist_common import SAME, TAU, quiet, with_entropy
+from .hist_common import SAME, TAU, contain, draw_container, quiet, with_entropy
 from .hist_common import call_value as _call_value
 
 NAME = "B9"
 PROPERTY = "C09"
 RUNS = {"quick": 320, "thorough": 12000}
 RUN_WALL_CAP = 300.0
-REQUIRED_PROBES = {"quick": ["lower_bound_obtained", "two_lower_bounds_different_entropy", "npa_obtained", "complex_predicate", "asymmetric_game", "needs_question_dependent_answers", "referee_dim_1", "method_repeated", "unequal_counts", "three_questions", "two_objects_same_shape"], "thorough": ["lower_bound_obtained", "two_lower_bounds_different_entropy", "npa_obtained", "npa2_obtained", "complex_predicate", "asymmetric_game", "needs_question_dependent_answers", "referee_dim_1", "referee_dim_3", "method_repeated", "unequal_counts"]}
+REQUIRED_PROBES = {"quick": ["other_container", "lower_bound_obtained", "two_lower_bounds_different_entropy", "npa_obtained", "complex_predicate", "asymmetric_game", "needs_question_dependent_answers", "referee_dim_1", "method_repeated", "unequal_counts", "three_questions", "two_objects_same_shape"], "thorough": ["lower_bound_obtained", "two_lower_bounds_different_entropy", "npa_obtained", "npa2_obtained", "complex_predicate", "asymmetric_game", "needs_question_dependent_answers", "referee_dim_1", "referee_dim_3", "method_repeated", "unequal_counts"]}
 COMPONENTS = {"real": ["toqito.nonlocal_games.ExtendedNonlocalGame (unentangled_value, quantum_value_lower_bound, commuting_measurement_value_upper_bound, nonsignaling_value)", "toqito.helper.npa_constraints (referee_dim blocks)", "toqito.rand.random_unitary", "cvxpy + SCS/Clarabel"], "stub": ["OS entropy for the see-saw start (numpy.random.bit_generator.randbits -> choice source)"]}
 RULE = ("one run = one extended game, sometimes with a second game of the same shape used in between (referee dimension 1..3, 1..2 (rarely 3) answers and 1..3 questions per player, unequal counts, PSD predicate operators of norm <= 1, real and complex, "
         "not symmetric under player exchange, two thirds with referee dimension = Bob's answer count so that the see-saw runs) and 3..6 value-method calls in seeded order, several entropy values per game; "
@@ -202,8 +202,13 @@ def run(cs, tier, run_index):
     if a_out != b_out or a_in != b_in or not np.allclose(pred, np.transpose(pred, (0, 1, 3, 2, 5, 4))):
         res.probe("asymmetric_game")
 
+    forms = [draw_container(cs.s("config:containers")), draw_container(cs.s("config:containers"))]
+    if forms != ["array", "array"]:
+        meta["containers"] = forms
+        res.probe("other_container")
+
     def build():
-        p, v = prob.copy(), pred.copy()
+        p, v = contain(prob, forms[0]), contain(pred, forms[1])
         return E.ExtendedNonlocalGame(p, v), (p, v)
 
     game, caller = build()
